@@ -84,3 +84,13 @@ Print Assumptions C16_create_dir_all_keeps_wf.
 Theorem C16_output_dirs_premises_example : fs_wf ex_fs /\ clear_path ex_fs ex_cwd (mkL false [s [97]; s [98]]).
 Proof. exact (conj ex_wf ex_clear). Qed.
 Print Assumptions C16_output_dirs_premises_example.
+
+(* the clause in one statement.  [prepare_step] = what happens between a step leaving the queue and
+   its command being spawned: create_parent_dirs for its outputs (Work::run), then write_rspfile
+   (the worker thread, before process::run_command).  When both succeed: the directory of every
+   output exists, a reader of the response file's name finds exactly the evaluated content, and
+   everything that was there is unchanged - except a regular file at the response file's own location,
+   which now holds the content *)
+Theorem C16_step_prepared : forall fs cwd outs rsp fs', prepare_step fs cwd outs rsp = (None, fs') -> (forall o d, In o outs -> lp_parent (path_new o) = Some d -> is_dir_l fs' cwd d = true) /\ (forall n c, rsp = Some (n, c) -> read_l fs' cwd (path_new n) = Some (KFile c)) /\ (forall q k, lookup fs q = Some k -> lookup fs' q = Some k \/ exists n c, rsp = Some (n, c) /\ k <> KDir /\ lookup fs' q = Some (KFile c)).
+Proof. exact prepare_step_ready. Qed.
+Print Assumptions C16_step_prepared.
